@@ -334,7 +334,11 @@ def work_z3str(inst) -> dict:
         for cond, toks in paths:
             code = z3.Or(code, z3.And(*cond, S.match_meaning(toks, s)) if cond else S.match_meaning(toks, s))
     except S.Unsupported as e:
-        res["errors"].append(f"string-theory translator: {e}")
+        # the converter's source is no longer in the small straight-line shape the AST -> SMT-LIB translation reads
+        # (startswith / endswith / slices / conditional re-assignment / f-strings): this encoding does not apply to the
+        # tree; the CrossHair kernels execute the real function on symbolic strings whatever its shape
+        res["over_budget"] = True
+        res["samples"] = [{"instance": res["label"], "skipped": f"string-theory translator: {e}"[:300]}]
         return res
     res["paths"] = res["forks"] = len(paths)
     # translator validation: the repository's own converter examples and a few more, through both
